@@ -309,6 +309,14 @@ fn p6(tier: Tier) -> BoxedStrategy<P6> {
             if len > 70_000 && sizes.iter().any(|s| *s < 64) {
                 sizes = sizes.iter().map(|s| if *s == 0 { 0 } else { *s * 997 + 64 }).collect();
             }
+            // payloads that end like HTTP framing: mostly with that ending as a piece of its own
+            if class % case::N_CLASSES == 11 && seed % 4 != 0 {
+                let k = case::framing_tail(seed).len() as u32;
+                if len > k {
+                    sizes = if seed % 4 == 1 { vec![len - k, k] } else { vec![(len - k).div_ceil(2), (len - k) / 2, k] };
+                    sizes.retain(|s| *s > 0);
+                }
+            }
             // likewise tiny socket writes (each one a packet with TCP_NODELAY): for large bodies
             // they take minutes on a busy machine and tell nothing a few thousand of them do not
             let wsizes: Vec<u32> = if len > 200_000 && wsizes.iter().any(|w| *w < 512) { wsizes.iter().map(|w| *w * 61 + 512).collect() } else { wsizes };
